@@ -3,8 +3,8 @@
 From Coq Require Import String Ascii List ZArith Bool Lia.
 From TT Require Import Base.Outcome Base.Str Base.F64.
 Import ListNotations.
-Open Scope char_scope.
-Open Scope Z_scope.
+Local Open Scope char_scope.
+Local Open Scope Z_scope.
 
 Definition unmodelled {A} : outcome A := Err "?"%string.
 Definition is_unmodelled {A} (x : outcome A) : bool :=
